@@ -1427,7 +1427,7 @@ func (l *ChainedSeqContext3) apply(ctx *Context, a, b int) int {
 	}
 
 	p = a
-	matchPos := append(ctx.scratch[:0], p)
+	matchPos := ctx.scratch[:0]
 	glyphsNeeded = len(l.Input)
 	for _, cov := range l.Input {
 		if p+glyphsNeeded-1 >= b || !cov[seq[p].GID] {
